@@ -323,17 +323,19 @@ def doneSpec : List String :=
 
 def pollGuardSpec : String := "janet_vm.tq_count||janet_atomic_load(&janet_vm.listener_count)"
 
-/-- every site that touches listener_count, with the transition that mirrors it -/
-def siteSpec (selfpipeDecNeedsCb : Bool) : List (String × String × String × List String) := [
-  ("ev.c", "janet_async_end", "-", ["if(fiber->ev_callback)", "if(!(fiber->flags&0x1))"]),                                         -- aend
-  ("ev.c", "janet_async_start_fiber", "+", []),                                                                                     -- astart
-  ("ev.c", "janet_loop1", "-", ["while(janet_vm.spawn.head!=janet_vm.spawn.tail)", "if(task.fiber->gc.flags&0x20000)"]),           -- pop
-  ("ev.c", "janet_loop1", "+", ["while(janet_vm.spawn.head!=janet_vm.spawn.tail)", "if(is_suspended)"]),                            -- ran _ true
-  ("ev.c", "janet_ev_handle_selfpipe", "-",
-     if selfpipeDecNeedsCb then ["if(status>0)", "if(((void*)0)!=response.cb)"] else ["if(status>0)"]),                            -- deliver*
-  ("ev.c", "janet_ev_post_event", "+", []),                                                                                         -- post
-  ("ev.c", "janet_ev_threaded_call", "+", []),                                                                                      -- await / callNoFiber / procWait
-  ("gc.c", "janet_deinit_block", "-", ["switch(mem->flags&0xFF)", "caseJANET_MEMORY_FIBER", "if(f->ev_state&&!(f->flags&0x1))"])   -- gcListener
+/-- every site that touches listener_count (file, function, sign, source order), with the transition that mirrors it.  UNDER WHICH
+    CONDITIONS each site is executed is no longer compared as text (the chain of enclosing conditions, `Gen.Loop.counterSites` 4th
+    component, kept there for the report only): `Loop/CounterPaths.lean` checks the branches taken on every control-flow path of
+    these functions against the guards of the transitions (`counter_paths_ok`, `counter_ops_match_model`). -/
+def siteSpec : List (String × String × String) := [
+  ("ev.c", "janet_async_end", "-"),              -- aend
+  ("ev.c", "janet_async_start_fiber", "+"),      -- astart
+  ("ev.c", "janet_loop1", "-"),                  -- pop
+  ("ev.c", "janet_loop1", "+"),                  -- ran _ true
+  ("ev.c", "janet_ev_handle_selfpipe", "-"),     -- deliver*
+  ("ev.c", "janet_ev_post_event", "+"),          -- post
+  ("ev.c", "janet_ev_threaded_call", "+"),       -- await / callNoFiber / procWait
+  ("gc.c", "janet_deinit_block", "-")            -- gcListener
 ]
 
 def staleLoopSpec : String :=
